@@ -146,7 +146,7 @@ def run(ctx):
     # a conversation whose halves change protocol: the first request of the connection asks for h2c, the server declines.
     # No abstract pairing is expected here (the client half gives up after the upgrade request); the property itself is
     # the oracle: every schedule gives the result of the first one.
-    xs = [("httpup", c) for c in configs(ctx)[1:]] + [("redissub", c) for c in configs(ctx)[:4]] + [("kafkadesc", c) for c in configs(ctx)[1:4]]
+    xs = [("httphead", c) for c in configs(ctx)[1:4]] + [("httpup", c) for c in configs(ctx)[1:]] + [("redissub", c) for c in configs(ctx)[:4]] + [("kafkadesc", c) for c in configs(ctx)[1:4]]
     # every message in two segments, every Read a scheduling point (a half can run while the other half's message is only partly there)
     xs += [(p + "+rd", c) for p in ("kafka", "redis", "http", "amqp", "http2") for c in configs(ctx)[:2]]
     for xproto, cfg in xs:
